@@ -369,3 +369,24 @@ Theorem shuffle_taxa_refines_wf : forall (ii : bool) (draws : list nat) (h : hea
   WF h -> to_hres (Tree_shuffle_taxa HG set_taxon ii (sing draws) h) = shuffle_taxa ii draws h.
 Proof. exact gen_shuffle_taxa_wf. Qed.
 Print Assumptions shuffle_taxa_refines_wf.
+
+(* ===== wave 8: the error path of the GENERATED Node.remove_child =====
+   On a node that is not in the receiver's child list the code compiled from the source raises ValueError
+   and the state it leaves is the heap it was called on (suppress_unifurcations=False: syntactically equal;
+   any mode: observationally equal, under the hypotheses of remove_child_refines).  A source in which a
+   write precedes the membership test does not satisfy this (nor remove_child_plain_refines). *)
+From DV Require Import Proofs.C03ErrFrame Proofs.C03GenErrFrame.
+
+Theorem generated_remove_child_refused_frame : forall (fuel : nat) (p c : Z) (h : heap),
+  memz c (kids h p) = false ->
+  Node_remove_child__suppress_unifurcations_False HG p c h = MErr ValueErr h /\
+  Node_remove_child HG fuel p c false h = MErr ValueErr h.
+Proof. exact gen_remove_child_refused. Qed.
+Print Assumptions generated_remove_child_refused_frame.
+
+Theorem generated_remove_child_refused_frame_any_mode : forall (fuel : nat) (p c : Z) (su : bool) (h : heap),
+  memz p (kids h p) = false -> (forall x, (length (kids h x) < fuel)%nat) ->
+  memz c (kids h p) = false ->
+  exists a, Node_remove_child HG fuel p c su h = MErr ValueErr a /\ heq a h.
+Proof. exact gen_remove_child_su_refused. Qed.
+Print Assumptions generated_remove_child_refused_frame_any_mode.
